@@ -8,7 +8,7 @@ for seed in sorted(os.listdir(root)):
         continue
     notes = open(d + "/notes.md").read() if os.path.exists(d + "/notes.md") else ""
     verify = json.load(open(d + "/verify.json"))["verify"] if os.path.exists(d + "/verify.json") else None
-    evals = [l.strip() for l in open(d + "/eval.log")] if os.path.exists(d + "/eval.log") else []
+    evals = sorted(l.strip() for l in open(d + "/eval.log")) if os.path.exists(d + "/eval.log") else []
     files = sorted(set(re.findall(r"^\+\+\+ b/(\S+)", open(d + "/patch.diff").read(), flags=re.M)))
     last = {}
     for l in evals:
